@@ -171,7 +171,7 @@ func schedMain(args []string) int {
 		}
 	}
 	data, _ := json.Marshal(&out)
-	os.Stdout.Write(data)
+	emitResult(data)
 	return 0
 }
 
@@ -236,6 +236,6 @@ func raceMain(args []string) int {
 	start.Done()
 	wg.Wait()
 	data, _ := json.Marshal(outcomes)
-	os.Stdout.Write(data)
+	emitResult(data)
 	return 0
 }
